@@ -38,7 +38,7 @@ FAMILY = {
                 extra_gen=["MC_GenClusterRetry.cfg", "MC_GenLedgerLong.cfg"], gen_split=True, gen_depth=1200,
                 enum=["MC_EnumCluster.cfg"]),
     "C03": dict(mc="MC_Fault", gen="MC_GenFault", quick=200, thorough=2000, drivers=["secret", "configmap", "memory"],
-                sweep=(40, 400)),
+                sweep=(40, 400), enum=["MC_EnumFault.cfg"], sweep_enum=True),
     "C06": dict(mc="MC_Dry", gen="MC_GenDry", quick=200, thorough=2000, drivers=["secret", "memory", "configmap"], cli=2,
                 enum=["MC_EnumDry.cfg"], extra_gen=["MC_GenDryCrash.cfg"], gen_split=True),
     "C07": dict(mc="MC_Own", gen="MC_GenOwn", quick=260, thorough=2000, drivers=["secret", "memory", "configmap"],
@@ -552,6 +552,7 @@ def run(pid, tier, seed, replay=None):
     # operation-level cover: EVERY behaviour of a small menu (all operation sequences up to the bound) is exported
     # by a breadth-first TLC run and replayed as well
     enum_n = 0
+    enum_from = len(raws)
     for ecfg in fam.get("enum", []) + (fam.get("enum_thorough", []) if tier == "thorough" else []):
         r, _ = vlib.generate(d, fam["gen"] + ".tla", ecfg, 0, 0, seed, timeout=1500, exhaustive=True)
         seen = {json.dumps(x["steps"], sort_keys=True) for x in raws}
@@ -605,7 +606,8 @@ def run(pid, tier, seed, replay=None):
             if not ends or ends[-1]["calls"] < 3:
                 continue
             # one base per distinct (operation, flags, chart, history length): spread the sweep over flag combinations
-            sig = (ops[-1]["op"], ops[-1].get("chart", ""), json.dumps({k: v for k, v in ops[-1]["flags"].items() if v}, sort_keys=True),
+            sig = (ops[-1]["op"] + ("+install" if ops[-1]["flags"].get("install") else ""), ops[-1].get("chart", ""),
+                   json.dumps({k: v for k, v in ops[-1]["flags"].items() if v}, sort_keys=True),
                    json.dumps([(st["op"], st.get("chart", ""), bool(st.get("fault"))) for st in ops[:-1]]))
             cands.setdefault(sig, []).append((ends[-1]["calls"], sid))
         rnd = random.Random(seed)
@@ -620,8 +622,17 @@ def run(pid, tier, seed, replay=None):
             for k in sorted(bykind):                                   # round-robin over operation kinds
                 if bykind[k] and len(order) < nb:
                     order.append(bykind[k].pop(0))
-        for sig in order:
-            calls, sid = max(cands[sig])
+        picked = [max(cands[sig]) for sig in order]
+        if fam.get("sweep_enum"):
+            # fault ENUMERATION: every enumerated short history is a base as well (every call position of its last operation)
+            enum_ids = {"s%d" % i for i in range(enum_from, len(raws))}
+            have = {sid for _, sid in picked}
+            for sig in sorted(cands):
+                for calls, sid in cands[sig]:
+                    if sid in enum_ids and sid not in have:
+                        picked.append((calls, sid))
+                        have.add(sid)
+        for calls, sid in picked:
             sc = bysid0[sid]
             for k in range(1, calls + 1):
                 c = json.loads(json.dumps(sc))
